@@ -67,6 +67,11 @@ func judge(r *run, res *simrt.Result) {
 	out.Summary["profile"] = h.Script.Profile
 	out.Summary["knobs"] = h.Script.Knobs
 	out.Nontrivial = len(m.Deliv) > 0 || len(h.Conns) > 1
+	if len(m.racedIDs()) > 0 {
+		// a client identifier reconnected while its previous connection was
+		// still being torn down: both connections share one session object
+		out.Summary["run_tag"] = "immediate-reconnect"
+	}
 	r.checkFraming(m)
 	r.checkResponses(m)
 	r.checkRouting(m)
